@@ -138,6 +138,20 @@ func checkC13(c *Ctx) {
 			return n == 1
 		}},
 	}
+	hops = append(hops, hop{"pkg/syntax", "NewLexer", "the lexer scans exactly the characters it is given (no normalisation of line breaks or anything else)", func(f *ssa.Function) bool {
+		n := 0
+		for _, in := range instrsOf(f) {
+			if st, ok := in.(*ssa.Store); ok {
+				if fa, ok := st.Addr.(*ssa.FieldAddr); ok && fieldAddrName(fa) == "Lexer.Source" {
+					n++
+					if !verbatim(st.Val, func(v ssa.Value) bool { return v == ssa.Value(f.Params[0]) }) {
+						return false
+					}
+				}
+			}
+		}
+		return n == 1
+	}})
 	for _, h := range hops {
 		f := u.ssaFunc(h.rel, h.fn)
 		if f == nil {
@@ -146,7 +160,7 @@ func checkC13(c *Ctx) {
 		}
 		R.check(h.check(f), "C13.verbatim", h.rel+"."+h.fn, u.pos(f.Pos()), h.what, "the literal's characters are altered on the way from the token to the text value (expected: "+h.what+")")
 	}
-	R.min("C13.verbatim", 5)
+	R.min("C13.verbatim", 6)
 
 	// a literal yields a new text on every evaluation (texts are rewritten in place by 转换数值: a pooled literal
 	// would read back altered the next time)
